@@ -129,6 +129,38 @@ def extreme_buffers(rnd, I, s, params, maxlen, cap=36):
     return out[:cap]
 
 
+def repair_to_ok(rnd, I, s, params, b, rounds=16):
+    """Local search towards a buffer on which the reference says Ok: repeatedly pick a present
+    top-level scalar field at a static offset that is not Ok and overwrite its bytes with another
+    value.  Returns the repaired buffer or None."""
+    fill = [0x00, 0x01, 0x02, 0x05, 0x09, 0x10, 0x63, 0x64, 0x65, 0x99, 0xC8, 0xC9, 0xFF, 0x80, 0x7F]
+    for _ in range(rounds):
+        try:
+            v = RI.StructView(I, s, params, b)
+            if v.ok():
+                return b
+            bad = []
+            for f in s.fields:
+                if f.is_virtual or f.is_anon or f.typ is None or f.typ.dims or not f.typ.is_scalar() or f.start[0] != "n" or f.size[0] != "n":
+                    continue
+                if f.start[1] + f.size[1] > len(b) or v.exists_by_name(f.name) is not True:
+                    continue
+                if not v.field_view_by_name(f.name).ok():
+                    bad.append(f)
+        except Exception:
+            return None
+        if not bad:
+            return None
+        f = rnd.choice(bad)
+        nb = f.size[1]
+        first = rnd.choice(fill)
+        new = bytes([first] + [rnd.choice([0, 0, first])] * (nb - 1))
+        if rnd.random() < 0.5:
+            new = new[::-1]
+        b = b[: f.start[1]] + new + b[f.start[1] + nb :]
+    return None
+
+
 def near_ok_buffers(rnd, I, s, params, maxlen, want=3, tries=60, max_variants=40):
     """Buffers on which the reference says the view is Ok, plus single-byte corruptions of them.
 
@@ -160,7 +192,9 @@ def near_ok_buffers(rnd, I, s, params, maxlen, want=3, tries=60, max_variants=40
         except Exception:
             ok = False
         if not ok:
-            continue
+            b = repair_to_ok(rnd, I, s, params, b)
+            if b is None:
+                continue
         found += 1
         out.append((b, [len(b)]))
         positions = list(range(len(b)))
@@ -219,8 +253,55 @@ def literal_array_module():
     return m, {"array", "literal-known-finding"}
 
 
+def switch_family_case(k, seed):
+    """A parametric family that is always part of the run: a tag followed by N members guarded by
+    `tag == c` (same c repeated, some with reversed operands, a second case interleaved), every
+    member one byte with a [requires] or of type Bcd.  Buffers: all members valid, then each member
+    invalid in turn, for each case value - so every member of every case must take part in Ok()."""
+    rnd = random.Random(seed * 1000003 + k)
+    m = M.Module("m.emb")
+    m.default_byte_order = "LittleEndian"
+    m.namespace = "v::ns"
+    st_ = M.Struct("struct", "Sw")
+    tag = M.Field("tag", ("n", 0), ("n", 1), M.Type("UInt", 8))
+    st_.fields.append(tag)
+    c1, c2 = rnd.sample([0, 1, 2, 3, 7, 200], 2)
+    n = rnd.randrange(3, 7)
+    members = []
+    for j in range(n):
+        c = c1 if (j < 3 or rnd.random() < 0.6) else c2
+        cond = ("op", "==", ("r", ("tag",)), ("n", c)) if rnd.random() < 0.75 else ("op", "==", ("n", c), ("r", ("tag",)))
+        kind = rnd.choice(["Bcd", "UInt", "UInt"])
+        f = M.Field("m%d" % j, ("n", 1 + j), ("n", 1), M.Type(kind, 8))
+        if kind == "UInt":
+            f.requires = ("op", "<", ("r", ("this",)), ("n", rnd.choice([10, 100, 200])))
+        f.cond = cond
+        st_.fields.append(f)
+        members.append((f, c))
+    if rnd.random() < 0.5:
+        tail = M.Field("tail", ("n", 1 + n), ("n", 1), M.Type("UInt", 8))
+        st_.fields.append(tail)
+    m.types.append(st_)
+    semgen.set_parents(st_, None)
+    total = 2 + n
+
+    def plan(s):
+        out = []
+        for c in (c1, c2, 9):
+            good = bytes([c] + [1] * (total - 1))
+            out.append((good, [len(good)]))
+            for j in range(n):
+                bad = good[: 1 + j] + b"\xff" + good[2 + j :]
+                out.append((bad, [len(bad)]))
+        return out
+
+    return build_case_model(m, {"switch-family", "conditional", "requires"}, rnd, 0, 0, buffer_plan=plan)
+
+
 def build_case(case_seed, nbase, nprefix):
     """Returns dict(text, module, script, expectations) or None if rejected."""
+    if isinstance(case_seed, tuple) and case_seed[0] == "switch-family":
+        return switch_family_case(case_seed[1], case_seed[2])
     rnd = random.Random(case_seed)
     if case_seed == "literal-array":
         rnd = random.Random(0)
@@ -414,7 +495,7 @@ def run(ctx):
     ]
     nmod = ctx.pick(48, 640)
     rnd = random.Random(ctx.seed * 7919 + 17)
-    seeds = [rnd.randrange(2**62) for _ in range(nmod)] + ["literal-array"]
+    seeds = [rnd.randrange(2**62) for _ in range(nmod)] + ["literal-array"] + [("switch-family", k, ctx.seed) for k in range(ctx.pick(4, 24))]
     ctx.stats = run_batch(ctx, seeds, ctx.pick(4, 6), ctx.pick(14, 24), "b0")
     return ctx.finish(None)
 
